@@ -32,11 +32,9 @@ BUGS = ["inline_into_overrides", "no_copy_in_parse_string", "combine_no_copy", "
 
 # planted values: one distinct value per layer and key
 VAL_C = {"default": 80, "user": 30, "root": 36, "a": 42, "b": 48, "extra": 54, "override": 60,
-         "inl1": 66, "inl2": 72, "inl3": 78}                              # core: max_line_length
+         "inl1": 66, "inl2": 72, "inl3": 78, "above": 24}                 # core: max_line_length
 VAL_S = {"default": None, "user": 4, "root": 6, "a": 8, "b": 10, "extra": 12,
-         "inl1": 14, "inl2": 16, "inl3": 18}                              # rules:aliasing.length max_alias_length
-LENS = [33, 39, 45, 51, 57, 63, 69, 75, 79, 83]                           # probe line lengths (between the values)
-ALENS = [5, 7, 9, 11, 13, 15, 17, 19]                                      # probe alias lengths
+         "inl1": 14, "inl2": 16, "inl3": 18, "above": 2}                  # rules:aliasing.length max_alias_length
 DIR_FORMATS = [".sqlfluff", "pyproject.toml", "setup.cfg", "tox.ini"]
 USER_PLACES = ["appdir", "xdg", "home"]
 
@@ -52,6 +50,8 @@ def kind_of(layer: str, f: int) -> str:
         return "own-inline"
     if layer.startswith("inl"):
         return "other-inline"
+    if layer == "above":
+        return "above-cwd"
     return "dir" if layer in ("root", "a", "b") else layer
 
 
@@ -78,7 +78,17 @@ def config_text(src: str, keys: List[str], fmt: str) -> str:
     return "\n".join(out) + "\n"
 
 
-def sql_text(f: int, keys: List[str]):
+def probes(filedirs: List[str], above: bool = False):
+    """Probe line / alias lengths: one just above each value a layer of this layout can plant."""
+    srcs = {"default", "user", "root", "extra", "override"} | set(filedirs) | {f"inl{j}" for j in range(1, len(filedirs) + 1)}
+    if above:
+        srcs.add("above")
+    lens = sorted(VAL_C[x] + 3 for x in srcs)
+    alens = sorted(VAL_S[x] + 1 for x in srcs if VAL_S.get(x) is not None)
+    return lens, alens, sorted(srcs)
+
+
+def sql_text(f: int, keys: List[str], LENS: List[int], ALENS: List[int]):
     """File text + where the probes are.  LT05 probes are comment lines (cheap to parse) of the lengths in
     LENS; AL06 probes are the table aliases of one FROM clause, identified by their column span."""
     src = f"inl{f}"
@@ -114,7 +124,13 @@ def variant_of(assign, filedirs, seed: int) -> dict:
 
 def materialise(base: str, assign, filedirs, variant) -> dict:
     home, proj = os.path.join(base, "h"), os.path.join(base, "p")
-    os.makedirs(home), os.makedirs(proj)
+    if variant.get("above"):
+        # the working directory gets a parent (not under HOME) holding a config file of its own
+        proj = os.path.join(base, "w", "p")
+        os.makedirs(proj)
+        with open(os.path.join(base, "w", ".sqlfluff"), "w") as fh:
+            fh.write(config_text("above", ["c", "s"], ".sqlfluff"))
+    os.makedirs(home), os.makedirs(proj, exist_ok=True)
     env = {"HOME": home}
     uk = keys_of(assign, "user")
     if variant["user"] == "appdir":
@@ -146,12 +162,13 @@ def materialise(base: str, assign, filedirs, variant) -> dict:
         with open(extra, "w") as fh:
             fh.write(config_text("extra", ek, ".sqlfluff"))
     files = {}
+    lens, alens, srcs = probes(filedirs, bool(variant.get("above")))
     for f, d in enumerate(filedirs, start=1):
-        text, alias_line, len_line = sql_text(f, keys_of(assign, f"inl{f}"))
+        text, alias_line, len_line = sql_text(f, keys_of(assign, f"inl{f}"), lens, alens)
         rel = f"f{f}.sql" if d == "root" else os.path.join(d, f"f{f}.sql")
         with open(os.path.join(proj, rel), "w") as fh:
             fh.write(text)
-        files[f] = {"rel": rel, "text": text, "alias_line": alias_line, "len_line": len_line}
+        files[f] = {"rel": rel, "text": text, "alias_line": alias_line, "len_line": len_line, "lens": lens, "alens": alens, "srcs": srcs}
     overrides: Dict[str, Any] = {"dialect": "ansi", "rules": "LT05,AL06"}
     if "override" in assign["c"]:
         overrides["max_line_length"] = VAL_C["override"]
@@ -209,7 +226,8 @@ def _event(f: int, info: dict, seen: tuple, lf) -> dict:
     shown = (m.group(1) or "default") if m else "?"          # an undefined context value renders as ''
     return {"file": f, "obj_c": _name(VAL_C, seen[1]), "obj_s_rule": _name(VAL_S, seen[2]),
             "obj_s_ctx": seen[3] if seen[3] in names else "?",
-            "beh_c": _decode_threshold(VAL_C, lt05, LENS), "beh_s_rule": _decode_threshold(VAL_S, al06, ALENS),
+            "beh_c": _decode_threshold({k: VAL_C[k] for k in info["srcs"]}, lt05, info["lens"]),
+            "beh_s_rule": _decode_threshold({k: VAL_S[k] for k in info["srcs"] if k in VAL_S}, al06, info["alens"]),
             "beh_s_ctx": shown if shown in names else "?",
             "raw": {"max_line_length": seen[1], "max_alias_length": seen[2], "ctx_v": seen[3],
                     "lt05_probe_lengths": sorted(lt05), "al06_probe_lengths": sorted(al06),
@@ -273,26 +291,28 @@ def run_group(group: dict) -> List[dict]:
 
 # ------------------------------------------------------------------ driver
 def scopes(tier: str):
+    """(layout, max setters per key, max settings in total)"""
     if tier == "quick":
-        return [("ra", 2), ("aa", 1)]
-    return [("ra", 7), ("aa", 3), ("ab", 2), ("arb", 2), ("aab", 2)]
+        return [("ra", 2, 2), ("aa", 1, 2)]
+    return [("ra", 3, 4), ("aa", 2, 3), ("ab", 2, 2), ("arb", 2, 2), ("aab", 2, 1)]
 
 
 def describe(group: dict, run: dict) -> str:
     v = group["variant"]
     return (f"layers setting max_line_length: {group['assign']['c']}; layers setting the rule option and the context "
             f"value: {group['assign']['s']}; files in dirs {group['filedirs']}; user config in {v['user']}; "
-            f"dir config files {v['dirfmt']}; history {run['hist']} via "
+            f"dir config files {v['dirfmt']}; {'a .sqlfluff in the parent of the working directory (outside HOME) sets both; ' if v.get('above') else ''}"
+            f"history {run['hist']} via "
             f"{'lint_paths' if run['mode'] == 'paths' else 'lint_string'} on one Linter")
 
 
-def check_scope(rep: Report, layout: str, maxset: int, seed: int) -> None:
-    consts = {"Layout": layout, "MaxSetters": maxset, "Bug": "none"}
+def check_scope(rep: Report, layout: str, maxset: int, maxtotal: int, seed: int) -> None:
+    consts = {"Layout": layout, "MaxSetters": maxset, "MaxTotal": maxtotal, "Bug": "none"}
     m = run_tlc("ConfigLayers", cfg_text(constants=consts, invariants=["TypeOK", "AlgoMeetsContract", "AlgoIsolated",
                                                                          "SharedUntouched"]),
                 workers=tlc_workers(), timeout=1500, heap="8g")
     expect_model_ok(m, f"ConfigLayers Algo => Contract ({layout})")
-    rep.model(m, f"layout {layout}: every assignment with <= {maxset} setters per key x every file order (+ first file "
+    rep.model(m, f"layout {layout}: every assignment with <= {maxset} setters per key and <= {maxtotal} settings x every file order (+ first file "
                  f"again) x paths/strings")
     if not m.records:
         raise MachineryError("ConfigLayers emitted no cases")
@@ -308,6 +328,15 @@ def check_scope(rep: Report, layout: str, maxset: int, seed: int) -> None:
         if rec["algo"] and any(o["eff"] != rec["eff"][o["file"] - 1] for o in rec["algo"]):
             raise MachineryError(f"ConfigLayers: Algo and Contract disagree in an emitted record: {rec}")
     glist = [groups[k] for k in sorted(groups)]
+    if layout == "ra":
+        # one more source the statement does not list: a config file in the parent of the working directory,
+        # outside HOME.  Its values are planted; the contract (no such layer on any chain) expects the defaults.
+        ga = {"assign": {"c": [], "s": []}, "filedirs": m.records[0]["filedirs"],
+              "variant": {**variant_of({"above": 1}, m.records[0]["filedirs"], seed), "above": True},
+              "runs": [{"id": f"{layout}-above-{md}", "hist": [1, 2, 1], "mode": md} for md in ("paths", "strings")]}
+        for run in ga["runs"]:
+            recs[run["id"]] = ({"eff": [{"c": "default", "s": "default"}] * len(ga["filedirs"])}, ga)
+        glist.append(ga)
     traces = [t for ts in pmap(run_group, glist, chunksize=4) for t in ts]
     rep.evaluated(sum(t["nhist"] for t in traces))
     val = validate_traces("ConfigLayersTrace", [{**t, "events": [{k: v for k, v in e.items() if k != "raw"} for e in t["events"]]}
@@ -330,9 +359,11 @@ def check_scope(rep: Report, layout: str, maxset: int, seed: int) -> None:
                       f"{describe(g, run)}: at step {r['step']} file {ev['file'] if ev else '?'} observed "
                       f"{({k: v for k, v in ev.items() if k != 'raw'}) if ev else None} (raw {ev['raw'] if ev else None}), "
                       f"contract Effective = {want}",
-                      {"group": {**g, "runs": [run]}, "layout": layout, "maxset": maxset, "verdict": r})
+                      {"group": {**g, "runs": [run]}, "layout": layout, "maxset": maxset, "maxtotal": maxtotal, "verdict": r})
     for g in glist:
         a = g["assign"]
+        if g["variant"].get("above"):
+            rep.nontrivial(json.dumps([layout, "above"]))
         if any(len(a[k]) >= 2 for k in a) or any(s.startswith("inl") for k in a for s in a[k]):
             rep.nontrivial(json.dumps([layout, a], sort_keys=True))
     if traces:
@@ -343,7 +374,7 @@ def check_scope(rep: Report, layout: str, maxset: int, seed: int) -> None:
 def self_test(rep: Report) -> None:
     """Each protective step switched off in the model must break the contract (the invariant is not vacuous)."""
     for bug in BUGS:
-        m = run_tlc("ConfigLayers", cfg_text(constants={"Layout": "ra", "MaxSetters": 2, "Bug": bug},
+        m = run_tlc("ConfigLayers", cfg_text(constants={"Layout": "ra", "MaxSetters": 2, "MaxTotal": 2, "Bug": bug},
                                              invariants=["AlgoMeetsContract"]),
                     workers=tlc_workers(), timeout=600, expect_violation=True)
         if m.ok:
@@ -354,11 +385,11 @@ def self_test(rep: Report) -> None:
 def run(tier: str, seed: int) -> int:
     rep = Report(PROP, tier, seed, "model_checking")
     self_test(rep)
-    for layout, maxset in scopes(tier):
-        check_scope(rep, layout, maxset, seed)
+    for layout, maxset, maxtotal in scopes(tier):
+        check_scope(rep, layout, maxset, maxtotal, seed)
     rep.exhaustive = True
     rep.rule = ("TLC enumerates, per file layout, every assignment of {user, cwd dir, child dirs, extra file, overrides, "
-                "inline of each file} to the keys {core key, section key} with at most MaxSetters setters per key, every "
+                "inline of each file} to the keys {core key, section key} with at most MaxSetters setters per key and MaxTotal settings, every "
                 "order of the files followed by the first file again, and both entry styles; each is run on a real "
                 "hierarchy.  Non-trivial = some key has >= 2 setters or an inline setter; distinct by (layout, assignment)")
     rep.trusted_base = ["materialiser (config file writers for ini/toml, HOME/XDG redirection, cwd)",
@@ -372,7 +403,7 @@ def run(tier: str, seed: int) -> int:
 
 def replay(path, tier, seed):
     case = json.load(open(path))["case"]
-    consts = {"Layout": case["layout"], "MaxSetters": case["maxset"], "Bug": "none"}
+    consts = {"Layout": case["layout"], "MaxSetters": case["maxset"], "MaxTotal": case.get("maxtotal", 4), "Bug": "none"}
     traces = run_group(case["group"])
     val = validate_traces("ConfigLayersTrace", [{**t, "events": [{k: v for k, v in e.items() if k != "raw"} for e in t["events"]]}
                                                   for t in traces], constants=consts)
